@@ -541,7 +541,8 @@ func b(rt *rapid.T, opts []buffer.Option, ex *exchange) *buffer.Buffer {
 	if nestBuffers {
 		// the buffer under test sits behind another, plainly configured one (two live buffered responses per
 		// request): the outer one relays what the inner one delivers
-		outer, err := buffer.New(bf)
+		// (it keeps everything in memory: the disk and its faults are the inner buffer's)
+		outer, err := buffer.New(bf, buffer.MemRequestBodyBytes(1<<30), buffer.MemResponseBodyBytes(1<<30))
 		if err != nil {
 			rt.Fatalf("buffer.New (outer): %v", err)
 		}
